@@ -120,6 +120,18 @@ func TestVerif_C04(t *testing.T) {
 					before := w.tip
 					w.reorg(1, [][]*txInfo{again}, parse)
 					if w.tip != before {
+						// those that were not mined again are announced again, now unconfirmed
+						for _, t := range txs {
+							mined := false
+							for _, a := range again {
+								if a == t {
+									mined = true
+								}
+							}
+							if !mined && r.Intn(2) == 0 {
+								w.arrive(t, c03Sources[r.Intn(5)], true)
+							}
+						}
 						reorged = true
 						shape += "/orphaned-and-mined-again"
 						rep.Event("blocks_orphaned_and_transactions_mined_again", 1)
